@@ -147,7 +147,11 @@ func genScenario(r *common.Rand) *Scenario {
 		case 2:
 			l = append(l, Op{"done", owner, 0})
 		case 3:
-			l = append(l, Op{"close", owner, 1 + r.Pick(n)})
+			// CloseSubscription names the subscription by its identifier, which the harness only knows for asynchronous subscribers
+			tgt := 1 + r.Pick(n)
+			if !sc.Subs[tgt-1].Sync {
+				l = append(l, Op{"close", owner, tgt})
+			}
 		}
 		sc.Lanes = append(sc.Lanes, l)
 	}
